@@ -225,7 +225,8 @@ def x_hist(ctx, case):
             ctx.check(gotc == want, "far.details-identical",
                       lambda: {"test": spec["id"], "got": gotc, "want": want, **detail()})
         elif spec["form"] == "exc":
-            ctx.check(spec["token"].encode() in got.get("traceback", ("", b""))[1], "far.traceback-arrives",
+            far_tb = got.get("traceback", ("", b""))[1]
+            ctx.check(spec["token"].encode() in far_tb and H.LATER_FRAME not in far_tb, "far.traceback-arrives",
                       lambda: {"test": spec["id"], "got": sorted(got), **detail()})
         if spec["outcome"] == "addSkip":
             reason = spec.get("reason")
